@@ -57,19 +57,26 @@ example : (((Server.start true).run [.conn ⟨1, [], [], [], false⟩, .conn ⟨
     = [] := by decide
 
 /-- C11.2 reopening and reconnecting a client never leaves an earlier socket open: after every history of
-reopen / close / serviceConnect (any `connect_ex` result, any handshake response) the only socket the client
-still holds open is its current one -/
-theorem client_never_leaks (tls : Bool) (ops : List COp) :
-    (Cli.run { tls := tls } ops).openIds = (Cli.run { tls := tls } ops).cs.toList :=
-  Cli.run_tidy ops (c := { tls := tls }) rfl
+reopen / close / virtual-tyme ticks / serviceConnect (any `connect_ex` result — in progress, refused, accepted —, any
+handshake response, the auto-reconnect retry tymer expiring before or after the connection was accepted), for every
+`reconnectable` flag and tymeout, plain and TLS, the only socket the client still holds open is its current one -/
+theorem client_never_leaks (tls reconnectable : Bool) (tymeout : Nat) (ops : List COp) :
+    (Cli.run (Cli.make tls reconnectable tymeout) ops).openIds = (Cli.run (Cli.make tls reconnectable tymeout) ops).cs.toList :=
+  Cli.run_tidy ops (c := Cli.make tls reconnectable tymeout) rfl
 
 /-- and after `close` it holds none -/
-theorem client_close_releases_all (tls : Bool) (ops : List COp) :
-    ((Cli.run { tls := tls } ops).close).openIds = [] := by
-  have h := Cli.close_tidy (Cli.run_tidy ops (c := { tls := tls }) rfl)
+theorem client_close_releases_all (tls reconnectable : Bool) (tymeout : Nat) (ops : List COp) :
+    ((Cli.run (Cli.make tls reconnectable tymeout) ops).close).openIds = [] := by
+  have h := Cli.close_tidy (Cli.run_tidy ops (c := Cli.make tls reconnectable tymeout) rfl)
   rw [h.1, h.2]; rfl
 
-example : (Cli.run { tls := true } [.reopen, .connect 0 (some (.fault 104)), .connect 111 none, .connect 0 (some .ok)]).openIds = [2] := by
+/-- the retry path is really taken: a reconnecting client (tymeout 8) whose connect stays in progress gets a fresh socket at
+every expiry of the retry tymer, and the abandoned ones are closed -/
+example : (Cli.run (Cli.make false true 8) [.reopen, .connect 115 none, .tick 8, .connect 114 none, .tick 8, .connect 114 none]).openIds = [2]
+    ∧ (Cli.run (Cli.make false true 8) [.reopen, .connect 115 none, .tick 8, .connect 114 none, .tick 8, .connect 114 none]).nextSid = 3 := by
+  decide
+
+example : (Cli.run (Cli.make true false 0) [.reopen, .connect 0 (some (.fault 104)), .connect 111 none, .connect 0 (some .ok)]).openIds = [2] := by
   decide
 
 end Hio.Tcp
